@@ -38,6 +38,7 @@ type Prog struct {
 
 	astFiles map[*token.File]*ast.File
 	exprCache map[token.Pos]string
+	extraOverlay map[string][]byte
 }
 
 func repoDir() string {
@@ -55,13 +56,17 @@ func verifDir() string {
 }
 
 // LoadProg loads the given package directories (relative to the repo root, e.g. "core/vm").
-func LoadProg(pkgDirs []string) (*Prog, error) {
+func LoadProg(pkgDirs []string, extraOverlay map[string][]byte) (*Prog, error) {
 	p := &Prog{
 		pkgs: map[string]*packages.Package{}, ssaPkgs: map[string]*ssa.Package{}, pkgByName: map[string]*types.Package{},
 		contracts: map[string]*FuncContract{}, pures: map[string]*PureFunc{}, repoDir: repoDir(),
 		contractSource: map[string]string{}, exprCache: map[token.Pos]string{},
 	}
 	overlay := map[string][]byte{}
+	p.extraOverlay = extraOverlay
+	for k, v := range extraOverlay {
+		overlay[k] = v
+	}
 	// contract files: prefer the copy in the repo; inject the mirror when absent.
 	for _, d := range pkgDirs {
 		repoFile := filepath.Join(p.repoDir, d, "zz_verif_contracts.go")
